@@ -463,6 +463,12 @@ inductive WStep (w : World) : Act → World → Prop
       (hok : (w.obs.step (.dispatch t.id) hf).2.isErr = false) :
       WStep w (.sched (.markDispatched f hf))
         { w with obs := (w.obs.step (.dispatch t.id) hf).1, pc := .d_get t }
+  /-- D21's trigger: `MarkAsDispatched` reached the CORE repository (which applied or refused it) and was reported
+  as failed; the observable wrapper's hook was not called: only the store changes, neither hook nor clock -/
+  | markCore (t : Task) (r : Bool) (e : Err) (hpc : w.pc = .d_mark t r) (hcd : w.ctxDone = false) :
+      WStep w (.sched .markDispatchedCore)
+        { w with obs := { w.obs with repo := (Repo.step {} w.obs.repo w.obs.clock.now (.dispatch t.id)).1 },
+                 ret := .dispatchErr t e, pc := .idle, getNextErr := true }
   /-- the work function is started -/
   | start (t cur : Task) (hpc : w.pc = .d_get t) (hl : w.obs.repo.lookup t.id = some cur) :
       WStep w (.sched (.getById .none))
@@ -621,6 +627,13 @@ theorem sched_spec (w : World) (a : SAct) : WStep w (.sched a) (w.sched a).1 := 
           | ok => exact .markOk f hf t retry hpc hnb hcd (by rw [hout]; rfl)
           | task _ => exact .markOk f hf t retry hpc hnb hcd (by rw [hout]; rfl)
           | tasks _ => exact .markOk f hf t retry hpc hnb hcd (by rw [hout]; rfl)
+  next t retry hpc =>
+    simp only
+    split
+    · exact .derr _ t _ true (by rw [hpc]; rfl) (by rw [hpc]; simp)
+    · rename_i hcd
+      have hcd : w.ctxDone = false := by simpa using hcd
+      exact .markCore t retry _ hpc hcd
   next t f hpc =>
     simp only
     split
@@ -1064,6 +1077,10 @@ theorem Inv_wstep {w w' : World} {a : Act} (hs : WStep w a w') (hI : Inv w) (hu 
           stepTask, stepOne, hs0, and_self, if_true]
         exact ⟨_, rfl, rfl⟩
       · simp at ht
+  | markCore t r e hpc hcd =>
+    have h1 := hI.repo { w.obs with repo := (Repo.step {} w.obs.repo w.obs.clock.now (.dispatch t.id)).1 } true
+      (C12_inv_step hI.wf trivial) (FrameP.of_step hI.wf _ _ rfl) (.inl rfl)
+    exact h1.derr t e true (by show heldPc w.pc = some t; rw [hpc]; rfl)
   | start t cur hpc hl =>
     have hn := hI.last_none (by rw [hpc]; rfl)
     have hheld := hI.pcHeld t (by rw [hpc]; rfl)
@@ -1203,12 +1220,18 @@ theorem log_mono_run (w : World) (acts : List Act) : ∀ e ∈ w.log, e ∈ (w.r
 
 /-! ## The ghost invariant: every started task was marked as dispatched by this run -/
 
-/-- the id for which this step's `MarkAsDispatched` took effect in the repository, if any -/
+/-- the id for which this step's `MarkAsDispatched` took effect in the repository, if any: through the observable
+wrapper (`markDispatched`), or in the core repository only, reported as failed (`markDispatchedCore`, D21) -/
 def marksNow (w : World) : Act → Option String
   | .sched (.markDispatched f hf) =>
     match w.pc with
     | .d_mark t _ =>
       if f != .before && !w.ctxDone && !(w.obs.step (.dispatch t.id) hf).2.isErr then some t.id else none
+    | _ => none
+  | .sched .markDispatchedCore =>      -- the mark took effect in the core repository although the call reported an error
+    match w.pc with
+    | .d_mark t _ =>
+      if !w.ctxDone && !(Repo.step {} w.obs.repo w.obs.clock.now (.dispatch t.id)).2.isErr then some t.id else none
     | _ => none
   | _ => none
 
@@ -1308,6 +1331,17 @@ theorem GInv_wstep {w w' : World} {a : Act} {G : List String} (hs : WStep w a w'
   case markDone f id o s hpc hs hs3 => exact viaOp (.done id (World.outcomeErr o)) rfl (fun _ => by simp) rfl
   case markErr f hf t r e hpc hnb hcd he => exact viaMark f hf t r hpc hnb hcd rfl rfl
   case markOk f hf t r hpc hnb hcd hok => exact viaMark f hf t r hpc hnb hcd rfl rfl
+  case markCore t r e hpc hcd =>
+    intro id t' hl hst
+    change (Repo.step {} w.obs.repo w.obs.clock.now (.dispatch t.id)).1.lookup id = some t' at hl
+    rcases frame_rev hI.wf _ _ rfl id t' hl hst with ⟨t0, h0, hs0⟩ | hd
+    · exact hsub _ (hG id t0 h0 hs0)
+    · cases hd
+      cases hok : (Repo.step {} w.obs.repo w.obs.clock.now (.dispatch t.id)).2.isErr
+      · apply List.mem_append_right
+        simp [marksNow, hpc, hcd, hok]
+      · rw [C01_error_is_noop hok] at hl
+        exact hsub _ (hG _ t' hl hst)
   case quiet a o' p cd g ho hn hp hp' hmr hq => exact same ho
   all_goals exact same rfl
 
@@ -1568,6 +1602,17 @@ theorem TInv_wstep {w w' : World} {a : Act} (hs : WStep w a w') (hI : Inv w) (hT
     · intro t' h; simp at h
     · intro t' h; simp only at h; rw [hn] at h; cases h
     · intro t' e h; cases h
+  | markCore t r e hpc hcd =>
+    have hh : w.held = some t := held_of_pc (by rw [hpc]; rfl)
+    have h1 := hT.obs hI { w.obs with repo := (Repo.step {} w.obs.repo w.obs.clock.now (.dispatch t.id)).1 }
+      (Int.le_refl _)
+      (fun t' ht' => by
+        rw [hh] at ht'; cases ht'
+        exact frameT_of_step hI.wf _ _ rfl t.id (hI.pcHeld t (by rw [hpc]; rfl)).1 (fun p h => by cases h))
+    have hI1 := hI.repo { w.obs with repo := (Repo.step {} w.obs.repo w.obs.clock.now (.dispatch t.id)).1 } true
+      (C12_inv_step hI.wf trivial) (FrameP.of_step hI.wf _ _ rfl) (.inl rfl)
+    exact h1.derr hI1 t e true
+      (by show heldPc w.pc = some t; rw [hpc]; rfl) (by show w.pc ≠ _; rw [hpc]; simp)
   | start t cur hpc hl =>
     have hn := hI.last_none (by rw [hpc]; rfl)
     refine ⟨?_, ?_, ?_, ?_, ?_⟩
@@ -1689,6 +1734,7 @@ theorem repo_wstep {w w' : World} {a : Act} (hs : WStep w a w') (hu : w.UserOk a
   case markDone f id o s hpc hs hs3 => exact .inr ⟨_, rfl, rfl⟩
   case markErr f hf t r e hpc hnb hcd he => exact .inr ⟨.dispatch t.id, rfl, (obs_step w.obs _ hf rfl).1⟩
   case markOk f hf t r hpc hnb hcd hok => exact .inr ⟨.dispatch t.id, rfl, (obs_step w.obs _ hf rfl).1⟩
+  case markCore t r e hpc hcd => exact .inr ⟨.dispatch t.id, rfl, rfl⟩
   case quiet a o' p cd g ho hn hp hp' hmr hq => exact .inl ho
   all_goals exact .inl rfl
 
@@ -2058,6 +2104,16 @@ theorem QInv_wstep {w w' : World} {a : Act} (hs : WStep w a w') (hI : Inv w) (hQ
       · cases h
       · cases h
       · exact hQ.src id o (.inr (.inr h))
+    · intro id o h
+      rcases h with h | h <;> cases h
+  | markCore t r e hpc hcd =>
+    have h1 := viaOp { w.obs with repo := (Repo.step {} w.obs.repo w.obs.clock.now (.dispatch t.id)).1 }
+      (.dispatch t.id) rfl rfl rfl
+    refine h1.ctl .idle (.dispatchErr t e) w.lastTask true w.ctxDone ?_ ?_ ?_
+    · intro id o _ hp
+      rcases hp.pc with h | h | h <;> (change w.pc = _ at h; rw [hpc] at h; cases h)
+    · intro id o h
+      rcases h with h | h | ⟨_, h⟩ <;> cases h
     · intro id o h
       rcases h with h | h <;> cases h
   | start t cur hpc hl =>
